@@ -56,6 +56,24 @@ def generate(rng, tier):
                         cases.append(W.mk_case("C03", route, "ok", nb, na, us, eh, False, prog))
     for ctor in ("exc~5", "ab~400~0~0", "conn"):
         cases.append(W.mk_case("C03", "hit", ctor, 2, 2, [], [], False, {}))
+    # what the first after hook is handed when the response came out of a chain of handlers: the endpoint (or an
+    # earlier after hook) raises, the exception handler aborts with a status, the status handler returns a plain
+    # value - every shape an endpoint may return
+    p = W.pool()
+    shapes = [W.beh_ret(f) for f in (W.f_str("handled"), W.f_bytes(b"hb"), W.f_json({"h": 1}), W.F_NONE,
+                                     p["tuples"][1], p["tuples"][12], p["resps"][2])]
+    for f in (W.f_str("handled"), W.f_bytes(b"hb"), W.f_json({"h": 1})):
+        W.register(f)
+    for shape in shapes:
+        for code in (404, 418, 500):
+            for na in (1, 2):
+                for route in ("hit", "rx"):
+                    cases.append(W.mk_case("C03", route, "ok", 1, na, [code], [0], False,
+                                           {"e": "exc~0", "x0": "ab~%d~0~0" % code, "s%d" % code: shape}))
+                    cases.append(W.mk_case("C03", route, "ok", 0, na, [code], [], False,
+                                           {"e": "ab~%d~0~0" % code, "s%d" % code: shape}))
+                cases.append(W.mk_case("C03", "hit", "ok", 0, na + 1, [code], [0], False,
+                                       {"e": "ret~S78", "a0": "exc~0", "x0": "ab~%d~0~0" % code, "s%d" % code: shape}))
     return cases
 
 
